@@ -268,9 +268,12 @@ func (r *runner) giveUp(what string) {
 	panic("inconclusive: " + what)
 }
 
+// isDialErr: the harness could not connect, or could not even hand its
+// request to the kernel before its own deadline (seen only with 16 loaded
+// shards) — nothing the server said or failed to say.
 func isDialErr(err error) bool {
 	var oe *net.OpError
-	return errors.As(err, &oe) && oe.Op == "dial"
+	return errors.As(err, &oe) && (oe.Op == "dial" || oe.Op == "write")
 }
 
 var reBareNonFinite = regexp.MustCompile(`[:\[,]\s*([+-]?Inf|NaN)\s*[,\]}]`)
